@@ -92,12 +92,16 @@ CHECKS = {
    design="§6 C06", technique="Lean 4 scanner model + per-token lemmas + tie theorems on the extracted rules + exhaustive short-string differential correspondence"),
  "C19": dict(
    text="Lean 4: `layout_invariant` - for EVERY printable tree any two placements of optional whitespace and either parenthesisation parse to the "
-        "same tree (from parse_printToks, which quantifies over all styles); bool_value_case; executed: every accepted filter x whitespace "
+        "same tree (from parse_printToks, which quantifies over all styles); bool_value_case. CHARACTER level (Props/C19Text.lean, Spec/Respell.lean, 3 900 lines): `parse_respell` - for every "
+        "printable tree e (identifier / literal tokens that lex to themselves next to a blank), every style and mode, and EVERY text s that spells the printed tokens with any non-empty run of "
+        "whitespace characters (the lexer's full \\s class) wherever a blank stands and any ASCII letter case of every operator / literal keyword (eq AND Not NULL True in any all, the duration and "
+        "geography prefixes and designators, T / Z, the exponent e), parseText s = ok e' with e' = e up to the letter case of Boolean / Float spellings (the two literal kinds that keep the text as "
+        "written); `lex_respell` / `lex_respell_ins` are the token-level forms. Executed: every accepted filter x whitespace "
         "re-layouts (10 kinds of runs, BWS insertion) x keyword case masks is parsed by model and real parser (exact agreement) and judged on the real "
         "code by normalised-AST equality and by equality of all six backends' outputs.",
-   note="Trusted: Lean kernel, standard axioms, harness. Partial: arbitrary whitespace runs / keyword case at character level rest on the lexer lemmas of Props/C06Lex.lean and the "
-        "correspondence run; backend equality is executed, not proved. fix: 7c0cf2f (TRUE on SQLAlchemy), 531c925 (lower-case t/z).",
-   design="§6 C19", technique="Lean 4 proof (style-generic round trip) + differential correspondence on re-spelled filters + executed backend comparison"),
+   note="Trusted: Lean kernel, standard axioms, Spec/Respell.lean (what counts as a re-spelling), harness. Backend equality of the two spellings is executed, not proved (it follows from AST equality "
+        "except for the Boolean / Float spellings, whose value-level invariance is bool_value_case + the executed comparison). Non-ASCII case twins (dotless i, long s, Kelvin) also match under re.I: outside the property, exercised by C10. fix: 7c0cf2f (TRUE on SQLAlchemy), 531c925 (lower-case t/z).",
+   design="§6 C19", technique="Lean 4 proof (style-generic round trip; character-level lexing under arbitrary whitespace runs and keyword case: every scanner commutes with a letter-case change, parser commutes with normalisation) + differential correspondence on re-spelled filters + executed backend comparison"),
  "C20": dict(
    text="Lean 4 theorems about the instance state machine of sly's lexer and parser (Model/Instances.lean): interleave_indep - in ANY schedule of two "
         "tokenizers on one lexer instance each yields exactly the steps it yields alone; history_independent - after ANY history of parse calls "
